@@ -122,6 +122,9 @@ func (e *Env) resolveType(name string) types.Type {
 	if strings.HasPrefix(name, "*") {
 		return types.NewPointer(e.resolveType(name[1:]))
 	}
+	if strings.HasPrefix(name, "[]") {
+		return types.NewSlice(e.resolveType(name[2:]))
+	}
 	if b, ok := basicByName[name]; ok {
 		return b
 	}
@@ -625,6 +628,15 @@ func (e *Env) call(c *ECall) TV {
 		base := e.oldComp("N!"+sanitize(key), SI)
 		arr := st.comp("TS!"+sanitize(key), ArrSort(SI, SI))
 		return TV{Sel(arr, Add(base, e.intTerm(c.Args[1]))), nil}
+	case "countat":
+		k2, k1 := exprKey(c.Args[0]), exprKey(c.Args[1])
+		arr := st.comp("CS!"+sanitize(k1)+"!"+sanitize(k2), ArrSort(SI, SI))
+		return TV{Sel(arr, e.intTerm(c.Args[2])), nil}
+	case "tsat":
+		// tsat(K, i): global sequence number of the call with absolute log index i
+		key := exprKey(c.Args[0])
+		arr := st.comp("TS!"+sanitize(key), ArrSort(SI, SI))
+		return TV{Sel(arr, e.intTerm(c.Args[1])), nil}
 	case "atomicval":
 		p := e.eval(c.Args[0])
 		pr, ok := p.V.(*PRef)
@@ -829,6 +841,15 @@ func (e *Env) call(c *ECall) TV {
 		a := flatten(e.st, e.materialize(e.eval(c.Args[0])))
 		b := flatten(e.st, e.materialize(e.eval(c.Args[1])))
 		return TV{UF(SB, "time.after", append(a, b...)...), boolT}
+	case "distinct":
+		var ts []Term
+		for _, a := range c.Args {
+			ts = append(ts, e.toTerm(e.eval(a)))
+		}
+		if len(ts) < 2 {
+			return TV{TTrue, boolT}
+		}
+		return TV{app(SB, "distinct", ts...), boolT}
 	case "min":
 		a, b := e.intTerm(c.Args[0]), e.intTerm(c.Args[1])
 		return TV{Ite(Le(a, b), a, b), nil}
